@@ -55,6 +55,9 @@ type ReaderSpec struct {
 	// Pre > 0: entry points that take an io.Reader get a caller's 4 KiB bufio.Reader from which the first Pre bytes of
 	// the input (filler put there by the generator) have already been read: the structure starts Pre bytes into the buffer
 	Pre int `json:"pre,omitempty"`
+	// Bufio > 0: entry points that take an io.Reader get a caller's bufio.Reader of that size (readers that adopt a large
+	// caller's buffer work with a window of that size)
+	Bufio int `json:"bufio,omitempty"`
 }
 
 // Req is one call.
@@ -349,6 +352,8 @@ func call(q Req, in *Inst) (dig string, errs string) {
 		br := bufio.NewReaderSize(onlyReader{in}, 4096)
 		_, _ = br.Discard(q.Reader.Pre)
 		plain = br
+	} else if q.Reader.Bufio > 0 {
+		plain = bufio.NewReaderSize(onlyReader{in}, q.Reader.Bufio)
 	}
 	keep := func(v any) {}
 	if !q.Concurrent {
